@@ -9,6 +9,39 @@
 
 namespace FunctionCallHelpers {
 
+// 関数ポインタ / ラムダ経由の呼び出しでも、仮引数の宣言どおりの const 修飾
+// (const T / const T* / T* const) を束縛済みのパラメータ変数に反映する。
+// 直接呼び出し (f(&d)) の束縛処理と同じ規則。
+void apply_param_const_qualifiers(Interpreter &interpreter,
+                                  const ASTNode *param) {
+    if (!param) {
+        return;
+    }
+    bool has_pointer_qualifier =
+        param->is_pointer && (param->is_pointee_const_qualifier ||
+                              param->is_pointer_const_qualifier);
+    if (!param->is_const && !has_pointer_qualifier) {
+        return;
+    }
+    auto &vars = interpreter.current_scope().variables;
+    auto it = vars.find(param->name);
+    if (it == vars.end()) {
+        return;
+    }
+    Variable &param_var = it->second;
+    if (param->is_const) {
+        param_var.is_const = true;
+    }
+    if (has_pointer_qualifier) {
+        if (param->is_pointee_const_qualifier) {
+            param_var.is_pointee_const = true;
+        }
+        if (param->is_pointer_const_qualifier) {
+            param_var.is_pointer_const = true;
+        }
+    }
+}
+
 // ========================================================================
 // 関数ポインタ呼び出しの評価
 // ========================================================================
@@ -110,6 +143,7 @@ int64_t evaluate_function_pointer_call(const ASTNode *node,
             interpreter.assign_function_parameter(
                 param_name, arg_values[param_idx], param_type, is_unsigned);
         }
+        apply_param_const_qualifiers(interpreter, param.get());
 
         param_idx++;
     }
